@@ -62,7 +62,8 @@ class Translator:
     calls: {dotted callee or ".method": handler(tr, node, args, receiver) -> (lean, type, monadic)};
     exceptions: {exception class name: Err constructor}."""
 
-    def __init__(self, params, attrs=None, calls=None, exceptions=None):
+    def __init__(self, params, attrs=None, calls=None, exceptions=None, checked_lshift=False):
+        self.checked_lshift = checked_lshift      # `a << b` -> the raising `pyShlChecked a b`
         self.params = dict(params)
         self.attrs = dict(attrs or {})
         self.calls = dict(calls or {})
@@ -103,6 +104,11 @@ class Translator:
         if isinstance(node, ast.BinOp):
             a, ta = self.expr(node.left, env, pre)
             b, tb = self.expr(node.right, env, pre)
+            if ta == tb == "int" and isinstance(node.op, ast.LShift) and self.checked_lshift:
+                t = "t%d" % self.tmp
+                self.tmp += 1
+                pre.append((t, "(pyShlChecked %s %s)" % (a, b)))
+                return t, "int"
             if ta == tb == "int" and type(node.op) in INT_BINOPS:
                 return INT_BINOPS[type(node.op)].format(a=a, b=b), "int"
             if ta == tb == "bool" and type(node.op) in BOOL_BINOPS:
